@@ -457,6 +457,74 @@ def _cmp_sign(c, p, a, b):
     return None
 
 
+def check_cache_keys(ctx):
+    """Two different blocks / tables never share a cache key: block key = (per-table
+    cache id, block offset), table key = file number; the per-table id is unique."""
+    br = ctx.fn("ldb_table_blockreader", "src/table/table.c")
+    fw = sorted((argkey(e, 0), argkey(e, 1)) for b, i, e in find_calls(br, "ldb_fixed64_write"))
+    ctx.check(fw == [("(cache_key_buffer + 0)", "table->cache_id"), ("(cache_key_buffer + 8)", "handle.offset")], "T6-cache-key",
+              "block-key", br.name, br.loc, "block cache key = (table cache id, block offset)", "block cache key built from %s" % fw)
+    ks = [e for b, i, e in find_calls(br, "ldb_slice_set") if argkey(e, 0) == "&key"]
+    ctx.check(len(ks) == 1 and argkey(ks[0], 1) == "cache_key_buffer" and const_val(ks[0]["a"][2]) == 16, "T6-cache-key", "block-key-size",
+              br.name, br.loc, "the whole 16-byte key is used", "block cache key slice changed")
+    lk = [argkey(e, 1) for b, i, e in find_calls(br, ("ldb_lru_lookup", "ldb_lru_insert"))]
+    ctx.check(lk and all(k == "&key" for k in lk), "T6-cache-key", "block-key-used", br.name, br.loc,
+              "lookup and insert use that key", "cache lookup/insert keys: %s" % lk)
+    to = ctx.fn("ldb_table_open", "src/table/table.c")
+    ids = [key(e["rhs"]) for b, i, e in to.events("asg") if key(e["lhs"]) == "tbl->cache_id" and const_val(e["rhs"]) is None]
+    ctx.check(ids == ["ldb_lru_id(options->block_cache)"], "T6-cache-key", "fresh-id-per-table", to.name, to.loc,
+              "every opened table gets a fresh cache id", "table cache id comes from %s" % ids)
+    li = ctx.fn("ldb_lru_id", "src/util/cache.c")
+    r = [key(e.get("x")) for b, i, e in li.events("ret") if not e.get("synthetic")]
+    st = [(e["op"], key(e["rhs"])) for b, i, e in li.events("asg") if key(e["lhs"]) == "id"]
+    ctx.check(r == ["id"] and st == [("=", "(++lru->last_id)")], "T6-cache-key", "id-allocator", li.name, li.loc,
+              "ids are the pre-incremented counter, captured in the critical section",
+              "ldb_lru_id returns %s (id <- %s)" % (r, st))
+    ft = ctx.fn("find_table", "src/table_cache.c")
+    fw = [(argkey(e, 0), argkey(e, 1)) for b, i, e in find_calls(ft, "ldb_fixed64_write")]
+    ctx.check(fw == [("buf", "file_number")], "T6-cache-key", "table-key", ft.name, ft.loc, "table cache key = file number",
+              "table cache key built from %s" % fw)
+    ev = ctx.fn("ldb_tables_evict", "src/table_cache.c")
+    fw = [(argkey(e, 1)) for b, i, e in find_calls(ev, "ldb_fixed64_write")]
+    ctx.check(fw == ["file_number"], "T6-cache-key", "evict-key", ev.name, ev.loc, "eviction uses the same key", "evict key built from %s" % fw)
+
+
+def check_trivial_move(ctx):
+    """A file is moved one level down without merging only if nothing overlaps it there."""
+    tm = ctx.fn("ldb_compaction_is_trivial_move", VS)
+    r = [e for b, i, e in tm.events("ret") if not e.get("synthetic")]
+    ctx.require(len(r) == 1, "ldb_compaction_is_trivial_move: single return expected")
+    from ..rules import dnf, _canon
+    got = dnf(r[0]["x"])
+    need = {_canon(("==", "c->inputs[0].length", "1")), _canon(("==", "c->inputs[1].length", "0"))}
+    ok = len(got) == 1 and need <= set(list(got)[0])
+    ctx.check(ok, "T2-trivial-move", "predicate", tm.name, tm.loc,
+              "trivial move requires exactly one input file and no overlapping file in the next level",
+              "trivial-move predicate is %s" % sorted(sorted(x) for x in got))
+    bc = ctx.fn("ldb_background_compaction", DB)
+    g = xgraph(ctx.P, bc)
+    mv = [(b, i, e) for (b, i, e) in find_calls(bc, "ldb_edit_add_file")]
+    ctx.require(len(mv) == 1, "ldb_background_compaction: trivial move edit not found")
+    atoms = g.must_at(mv[0][0], mv[0][1])
+    ctx.check(holds(atoms, ("!=", CALL("ldb_compaction_is_trivial_move"), "0")) and holds(atoms, ("==", "is_manual", "0")),
+              "T2-trivial-move", "guard", bc.name, site(bc, mv[0][2]), "the move edit is built only for a trivial, automatic compaction",
+              "trivial-move branch guard changed; facts %s" % fmt_atoms(atoms))
+    rm = one_call(ctx, bc, "ldb_edit_remove_file")[0][2]
+    ctx.check(argkey(rm, 1) == "c->level" and argkey(rm, 2) == "f->number" and argkey(mv[0][2], 1) == "(c->level + 1)" and
+              argkey(mv[0][2], 2) == "f->number", "T2-trivial-move", "same-file-one-level-down", bc.name, site(bc, rm),
+              "the same file is removed from level L and added to L+1", "trivial move edit changed")
+    ad = ctx.fn("ldb_compaction_add_input_deletions", VS)
+    rf = one_call(ctx, ad, "ldb_edit_remove_file")[0]
+    a2 = xgraph(ctx.P, ad).must_at(rf[0], rf[1])
+    ctx.check(argkey(rf[2], 1) == "(c->level + which)" and argkey(rf[2], 2) == "file->number" and holds(a2, ("<", "which", 2)) and
+              not holds(a2, ("<", "which", 1)) and holds(a2, ("<", "i", "c->inputs[which].length")), "T1-inputs-retired", "both-levels",
+              ad.name, site(ad, rf[2]), "every input file of both levels is removed by the install edit",
+              "input deletion loop changed")
+    ic = ctx.fn("ldb_install_compaction_results", DB)
+    always_before(ctx, "T1-inputs-retired", "deletions-in-install-edit", ic, lambda e: is_call(e, "ldb_compaction_add_input_deletions"),
+                  lambda e: is_call(e, "ldb_versions_apply"), "input deletions are part of the edit that installs the outputs")
+
+
 def check_table_get(ctx):
     P = ctx.P
     ig = ctx.fn("ldb_table_internal_get", "src/table/table.c")
@@ -517,6 +585,8 @@ def check(ctx):
     check_compaction_drop(ctx)
     check_inputs(ctx)
     check_level0_closure(ctx)
+    check_cache_keys(ctx)
+    check_trivial_move(ctx)
     check_table_get(ctx)
     from . import c04
     c04.check_write(ctx)       # sequence accounting of the commit group: a mis-stamped write is invisible to reads
